@@ -325,6 +325,30 @@ def make_deco(tag):
     return deco
 
 
+SIBLING_TAG = 1000
+
+
+def sibling_case(case):
+    """the configuration of the second application of a two-application history"""
+    import copy
+    st = []
+    cut, ncut = case.get('cut'), None
+    for i, s0 in enumerate(case['stmts']):
+        if cut is not None and i == cut + 1 and st:
+            ncut = len(st) - 1                 # the same commits as the first application
+        if s0['k'] in ('policy', 'defperm'):
+            continue
+        s1 = copy.deepcopy(s0)
+        if 'tag' in s1:
+            s1['tag'] += SIBLING_TAG
+        if 'perm' in s1:
+            s1['perm'] = None
+        s1.pop('vd', None)
+        s1.pop('csrf', None)
+        st.append(s1)
+    return {'stmts': st, 'cut': ncut, 'grants': [], 'flavour': 0, 'requests': []}
+
+
 class World:
     def __init__(self, case):
         setup()
@@ -333,8 +357,15 @@ class World:
         self.error = None
         self.static_tag = None
         self.ids = {}
+        self.sibling = None
         try:
             self._build()
+            if case.get('sibling'):
+                # a SECOND application in the same process, fully configured before any request is served: the same
+                # statements without policy / default permission / view permissions (every view open), other body tags
+                self.sibling = World(sibling_case(case))
+                if self.sibling.error:
+                    raise RuntimeError('sibling application: %r' % (self.sibling.error,))
         except Exception as e:       # configuration-time failure: reported as an observation
             self.error = ['CONFIG-ERROR', type(e).__name__]
 
@@ -460,6 +491,8 @@ class World:
 
     def run(self, r):
         P = _P
+        if self.sibling is not None and not r.get('static'):
+            self.sibling.run(r)              # the other application serves the same request first (its log is dropped)
         log = []
         rq = P['Request'].blank(self.url(r))
         rq.method = r['method']
